@@ -170,6 +170,8 @@ class SimSocket:
                     conn.eof = True
                     break
             if len(reply):
+                if net.reply_hook is not None:
+                    reply = net.reply_hook(reply)
                 conn.queue.append([reply, net.current_call])
 
     def recv(self, n):
@@ -282,6 +284,7 @@ class NetSim:
         self.expect_io_timeout = "any"
         self.check_failed_reuse = False
         self.tls_expected = False
+        self.reply_hook = None            # C03/C04: splice symbolic bytes into the concrete reply
         self.env_plan = None              # C06: (event name, occurrence index, exception) environment faults
         self.env_counts = {}
         self.env_fired = []
